@@ -511,6 +511,107 @@ impl<'s, X: Item> VecExec<'s, $K, X> {
         }
     }
 
+    /// `reduce_min` / `reduce_max` / `reduce_partial_min` / `reduce_partial_max` (which 0..4) and
+    /// `V::min` / `max` / `partial_min` / `partial_max` (which 4..8) with elements that are not Copy: the
+    /// losers of every comparison are destroyed. Which element wins is C02's business; here: the result
+    /// consists of operands that are alive, every other operand is destroyed exactly once. Faults: a
+    /// comparison unwinds (op.f < 1000, R-unwind b: nothing leaks), or the destructor of a loser
+    /// unwinds (op.f >= 1000, R-unwind a: pending elements may be abandoned, nothing is destroyed twice).
+    fn arith_ord(&mut self, v: <$K as Kind<X>>::V, which: u32, op: Op, ro: RefOps<<$K as Kind<X>>::V, X>) -> bool {
+        let n = <$K as Kind<X>>::N;
+        self.st.probes[P_ARITH] += 1;
+        self.st.probes[P_ARITH_ORD] += 1;
+        let what = ["v.reduce_min()", "v.reduce_max()", "v.reduce_partial_min()", "v.reduce_partial_max()", "V::min(v, w)", "V::max(v, w)", "V::partial_min(v, w)", "V::partial_max(v, w)"][which as usize % 8];
+        let mine: Vec<Grp> = self.model.drain(..).collect();
+        let (w, wg) = if which >= 4 {
+            let (items, grps) = Self::fresh_items_u(OWN_DOOMED, self.uniform);
+            self.st.elements_created += (n * X::W) as u64;
+            (Some(<$K as Kind<X>>::v_from_arr(<$K as Kind<X>>::arr_from_vec(items))), grps)
+        } else {
+            (None, Vec::new())
+        };
+        for g in mine.iter() {
+            g.set_owner(OWN_DOOMED);
+        }
+        let all: Vec<Grp> = mine.iter().chain(wg.iter()).copied().collect();
+        let drop_panic = op.f >= 1000;
+        let plan = if op.f == 0 {
+            None
+        } else if drop_panic {
+            self.st.fault_cfg[F_DROP_PANIC] += 1;
+            Some((Cb::Drop, op.f - 1000 + 1))
+        } else {
+            self.st.fault_cfg[F_OBSERVE_PANIC] += 1;
+            Some((Cb::Observe, op.f))
+        };
+        enum R<V, X> {
+            X(X),
+            V(V),
+        }
+        let (r, fired) = guard(m(OWN_DOOMED), m(OWN_DOOMED), plan, move || {
+            if which < 4 {
+                R::X((ro.reduce_ord[which as usize])(v))
+            } else {
+                R::V((ro.pick_ord[which as usize - 4])(v, w.unwrap()))
+            }
+        });
+        if fired {
+            if drop_panic {
+                self.st.fault_fired[F_DROP_PANIC] += 1;
+                self.st.probes[P_DROP_PANIC_FIRED] += 1;
+            } else {
+                self.st.fault_fired[F_OBSERVE_PANIC] += 1;
+                self.st.probes[P_OBS_PANIC_FIRED] += 1;
+            }
+        }
+        if tok::has_violation() {
+            match r {
+                Ok(R::X(x)) => std::mem::forget(x),
+                Ok(R::V(x)) => std::mem::forget(x),
+                _ => {}
+            }
+            return true;
+        }
+        match r {
+            Ok(R::X(x)) => {
+                let g = x.grp();
+                if !mine.contains(&g) || g.iter().any(|id| tok::state_of(id) != Some(St::Live)) {
+                    tok::raise(V5_ORDER, format!("{} on a {}: the result (ids {:?}) is not one of the vector's live elements", what, <$K as Kind<X>>::NAME, &g.ids[..g.n as usize]));
+                    std::mem::forget(x);
+                    return true;
+                }
+                let _ = guard_nopanic("drop of the chosen element", m(OWN_DOOMED), 0, move || drop(x));
+                self.settle_doomed(&all, false, what);
+            }
+            Ok(R::V(res)) => {
+                let mut newmodel: Vec<Grp> = Vec::with_capacity(n);
+                for i in 0..n {
+                    let g = <$K as Kind<X>>::v_field(&res, i).grp();
+                    if (g != mine[i] && g != wg[i]) || g.iter().any(|id| tok::state_of(id) != Some(St::Live)) {
+                        tok::raise(V5_ORDER, format!("{} on a {}: position {} holds ids {:?}, which is neither operand's live element of that lane", what, <$K as Kind<X>>::NAME, i, &g.ids[..g.n as usize]));
+                        std::mem::forget(res);
+                        return true;
+                    }
+                    newmodel.push(g);
+                }
+                for g in newmodel.iter() {
+                    g.set_owner(OWN_MAIN);
+                }
+                let losers: Vec<Grp> = all.iter().copied().filter(|g| !newmodel.contains(g)).collect();
+                self.model = newmodel;
+                self.form = Form::V(res);
+                self.settle_doomed(&losers, false, what);
+            }
+            Err(Thrown::Injected) if fired => {
+                // a comparison unwound: everything is destroyed exactly once; a loser's destructor unwound:
+                // what was still pending may be abandoned (rule R-unwind a), nothing is destroyed twice
+                self.settle_doomed(&all, drop_panic, what);
+            }
+            Err(t) => self.unexpected(what, t),
+        }
+        true
+    }
+
     fn unexpected(&mut self, what: &str, t: Thrown) {
         match t {
             Thrown::Injected => tok::raise(V10_UNEXPECTED_PANIC, format!("{}: an injected panic surfaced where none was planned (harness)", what)),
@@ -1427,12 +1528,15 @@ impl<'s, X: Item> VecExec<'s, $K, X> {
                         return false;
                     }
                 };
-                let mode = op.a % 13;
+                let mode = op.a % 21;
                 let ro = <$K as Kind<X>>::ref_ops();
                 if mode >= 11 && ro.is_none() {
-                    // the reference-left forms exist for the leaf element shapes only
+                    // the reference-left and the ordering-based forms exist for the leaf element shapes only
                     self.form = Form::V(v);
                     return false;
+                }
+                if mode >= 13 {
+                    return self.arith_ord(v, mode - 13, op, ro.unwrap());
                 }
                 let keep_last = (op.b >> 8) & 1 == 1;
                 let what = match mode {
